@@ -305,6 +305,7 @@ def items():
         ".vec []",
         lambda: T(extra_expr=[MCALL, ("self._data_to_matrix($d, $n)", "(genDataToMatrix {d} {n})"),
                               ("len($x.shape)", "(PyData.ndim {x})"),
+                              ("$x.ndim", "(PyData.ndim {x})"),          # the same number, by numpy's definition of ndim
                               ("$x[..., None].T", "(PyData.rowVec {x})")], ret="{e}").function(
             G.GMRFVectorModel.mahalanobis_distance,
             {"self": "self", "samples": "samples", "subtract_mean": "subtractmean", "square_root": "squareroot"}, ind=1))
